@@ -58,6 +58,7 @@ type UnitCase struct {
 	Status  string `json:"status"` // none | changed | panic | error
 	Out     string `json:"out"`    // base64 (when changed)
 	Src     string `json:"src"`    // which generator
+	Pred    string `json:"pred"`   // "" when the unit-level predicate holds
 }
 
 func fixByName(n string) fixes.Fix {
@@ -98,8 +99,41 @@ func runUnit(fix, content string, locs []Loc, src string) (uc UnitCase) {
 	default:
 		uc.Status = "changed"
 		uc.Out = b64(res[0].Contents)
+		uc.Pred = unitPredicate(fix, content, res[0].Contents, locs)
 	}
 	return uc
+}
+
+// unitPredicate: the property on one call of a fix, checked on the implementation's output alone:
+// same number of lines, only rows named by a location differ, and every differing row is the old row
+// with documented splices of that fix only.
+func unitPredicate(fix, in, out string, locs []Loc) string {
+	il, ol := strings.Split(in, "\n"), strings.Split(out, "\n")
+	if len(il) != len(ol) {
+		return "line-count"
+	}
+	rows := map[int]bool{}
+	for _, l := range locs {
+		rows[l.Row] = true
+	}
+	allow := map[string]bool{fix: true}
+	changed := false
+	for i := range il {
+		if il[i] == ol[i] {
+			continue
+		}
+		changed = true
+		if !rows[i+1] {
+			return fmt.Sprintf("row-%d-changed-without-location", i+1)
+		}
+		if !explained(il[i], ol[i], allow) {
+			return fmt.Sprintf("row-%d-not-explained", i+1)
+		}
+	}
+	if !changed {
+		return "reported-change-without-change"
+	}
+	return ""
 }
 
 // lines used by the unit generator: every interesting neighbourhood of '=', '#', quotes, escapes,
@@ -245,22 +279,24 @@ type Head struct {
 }
 
 type E2ECase struct {
-	Kind    string   `json:"kind"`
-	ID      int      `json:"id"`
-	Src     string   `json:"src"`
-	Content string   `json:"content"` // base64
-	V0      bool     `json:"v0"`
-	Rules   []string `json:"rules"` // short names
-	ParseOK bool     `json:"parse_ok"`
-	Viol    []Viol   `json:"viol"`  // first lint, in the order the linter returned them
-	Heads   []Head   `json:"heads"` // every rule head (incl. else) of the original
-	Iters   int      `json:"iters"`
-	Err     string   `json:"err"` // "", deadline, itercap, parse, other
-	ErrMsg  string   `json:"errmsg,omitempty"`
-	Iter1   string   `json:"iter1"`  // base64: content seen by the second lint (== final when there was none)
-	Final   string   `json:"final"`  // base64
-	Pred    string   `json:"pred"`   // "" when the predicate holds, else the reason
-	FmtEq   string   `json:"fmt_eq"` // for fmt-only runs: "", "eq", "neq", "fmterr"
+	Kind     string   `json:"kind"`
+	ID       int      `json:"id"`
+	Src      string   `json:"src"`
+	Content  string   `json:"content"` // base64
+	V0       bool     `json:"v0"`
+	Rules    []string `json:"rules"` // short names
+	ParseOK  bool     `json:"parse_ok"`
+	Viol     []Viol   `json:"viol"`     // first lint, in the order the linter returned them
+	Heads    []Head   `json:"heads"`    // every rule head (incl. else) of the original
+	Comments [][2]int `json:"comments"` // (row, col) of every comment of the original, from the parser
+	Strings  [][3]int `json:"strings"`  // (row, col, raw) of every one-row string term, from the parser
+	Iters    int      `json:"iters"`
+	Err      string   `json:"err"` // "", deadline, itercap, parse, other
+	ErrMsg   string   `json:"errmsg,omitempty"`
+	Iter1    string   `json:"iter1"`  // base64: content seen by the second lint (== final when there was none)
+	Final    string   `json:"final"`  // base64
+	Pred     string   `json:"pred"`   // "" when the predicate holds, else the reason
+	FmtEq    string   `json:"fmt_eq"` // for fmt-only runs: "", "eq", "neq", "fmterr"
 }
 
 // counting provider: one ToInput call per iteration of applyLinterFixes; refuses to go on after cap
@@ -464,7 +500,7 @@ func explained(o, g string, allow map[string]bool) bool {
 		if !r && allow["uao"] && j < len(g) && g[j] == ':' && i < len(o) && o[i] == '=' && j+1 < len(g) && g[j+1] == '=' {
 			r = rec(i, j+1)
 		}
-		if !r && allow["nwc"] && j < len(g) && g[j] == ' ' && j > 0 && g[j-1] == '#' && i > 0 && o[i-1] == '#' {
+		if !r && allow["nwc"] && j < len(g) && g[j] == ' ' && afterHash(g, j) && i > 0 && o[i-1] == '#' {
 			r = rec(i, j+1)
 		}
 		if !r && allow["nrr"] && i < len(o) && j < len(g) && o[i] == '"' && g[j] == '`' {
@@ -477,6 +513,15 @@ func explained(o, g string, allow map[string]bool) bool {
 		return r
 	}
 	return rec(0, 0)
+}
+
+// afterHash: position j of g follows a '#' with nothing but blanks inserted in between
+func afterHash(g string, j int) bool {
+	k := j - 1
+	for k >= 0 && g[k] == ' ' {
+		k--
+	}
+	return k >= 0 && g[k] == '#'
 }
 
 func commentTexts(m *ast.Module) []string {
@@ -595,6 +640,24 @@ func runE2E(id int, src, content string, v0 bool, rs []string) E2ECase {
 	}
 	c.ParseOK = true
 	c.Heads = collectHeads(om)
+	for _, cm := range om.Comments {
+		if cm.Location != nil {
+			c.Comments = append(c.Comments, [2]int{cm.Location.Row, cm.Location.Col})
+		}
+	}
+	ast.WalkTerms(om, func(t *ast.Term) bool {
+		if _, ok := t.Value.(ast.String); ok && t.Location != nil && len(t.Location.Text) > 0 &&
+			!strings.Contains(string(t.Location.Text), "\n") {
+			raw := 0
+			if t.Location.Text[0] == '`' {
+				raw = 1
+			} else if t.Location.Text[0] != '"' {
+				return false // generated term (e.g. the key of a ref head written with a dot)
+			}
+			c.Strings = append(c.Strings, [3]int{t.Location.Row, t.Location.Col, raw})
+		}
+		return false
+	})
 	on := map[string]bool{}
 	var long []string
 	for _, r := range rs {
@@ -927,9 +990,9 @@ func main() {
 			}
 		}
 	}
-	n := 170
+	n := 150
 	if tier != "quick" {
-		n = 6000
+		n = 2000
 	}
 	g := &gen{rng}
 	for i := 0; i < n; i++ {
